@@ -466,10 +466,9 @@ def run(ctx):
     common.run_regressions(ctx, 'C07', recheck)
     N = 300 if quick else 3000
     cases, outs = [], []
-    for entry in common.load_corpus('C07'):
-        if 'regress' in entry:
-            continue
+    for ci, entry in enumerate(common.load_corpus('C07')):
         case, out = run_case(CorpusBuild(entry))
+        case['corpus_entry'] = ci
         cases.append(case)
         outs.append(out)
     for i in range(N):
@@ -520,6 +519,8 @@ def run(ctx):
             res = oracle(c, io, rng, nsig=150, extra_sigmas=model_guided_sigmas(mo, c, rng) if 'raises' not in mo else ())
         if res:
             why, detail, tags = res
+            if detail.get('sigma'):
+                detail = dict(detail, sigma_by_pos=[detail['sigma'].get(str(i)) for i in c['user_ids']])
             rep = {'case': c, 'observed': io if 'raises' in io else {'K': io['K'], 'cols': io['cols']}, 'detail': detail}
             ctx.violation('compile: ' + why, rep, tags=tags)
     # distinct count: the digest of the serialised constraint list
@@ -539,13 +540,19 @@ def run(ctx):
 def recheck(r):
     """build the stored model again from its sub-seed and decide it with many more assignments; the violation it (still) shows"""
     c = r.get('case', {})
-    if 'bseed' not in c:
+    if 'corpus_entry' in c:
+        b = CorpusBuild(common.load_corpus('C07')[c['corpus_entry']])
+    elif 'bseed' in c:
+        b = Build(random.Random(c['bseed']), 0, allow_nonconvex=c.get('nonconvex', False), only_ecos=False).build()
+    else:
         return None
-    b = Build(random.Random(c['bseed']), 0, allow_nonconvex=c.get('nonconvex', False), only_ecos=False).build()
     case, out = run_case(b)
     rng = random.Random(0)
+    # the stored assignment first (by position: the ids of the rebuilt Variables are other numbers)
+    stored = (r.get('detail') or {}).get('sigma_by_pos')
+    extra = [dict(zip(case['user_ids'], stored))] if stored and len(stored) == len(case['user_ids']) else []
     for nsig in (8, 150):
-        res = oracle(case, out, rng, nsig=nsig)
+        res = oracle(case, out, rng, nsig=nsig, extra_sigmas=extra)
         known = {e.get('id') for e in common.load_known_findings('C07') if e.get('status') == 'known'}
         if res and not (set(res[2] or []) & known):            # (a recorded, unrepaired finding is that finding)
             return 'compile: ' + res[0]
